@@ -16,19 +16,74 @@ import (
 
 var kinds = []string{"memory", "memory", "oci"}
 
+// rootsOverlap: ExtendedCopyGraph with Depth 1 from N, whose predecessors are an
+// index A over N and B, and B itself (a referrer of N): B is a root and a successor
+// of the root A. The destination holds B's graph (so B and N) but not A.
+func rootsOverlap(t *rapid.T) copyx.Case {
+	var specs []gen.NodeSpec
+	add := func(s gen.NodeSpec) int { specs = append(specs, s); return len(specs) - 1 }
+	blob := func() int {
+		return add(gen.NodeSpec{Kind: gen.KBlob, Seed: 700 + len(specs), Size: 4 + len(specs), MT: "application/octet-stream"})
+	}
+	cfg := blob()
+	n := add(gen.NodeSpec{Kind: gen.KImage, Config: &gen.Ref{N: cfg}, Layers: []gen.Ref{{N: blob()}}})
+	var bs []int
+	for i := rapid.IntRange(1, 3).Draw(t, "referrers"); i > 0; i-- {
+		bs = append(bs, add(gen.NodeSpec{Kind: gen.KImage, Config: &gen.Ref{N: cfg}, Layers: []gen.Ref{{N: blob()}}, Subject: &gen.Ref{N: n}, ArtifactType: "application/vnd.verif.sig"}))
+	}
+	kids := []gen.Ref{{N: n}}
+	for _, b := range bs {
+		if rapid.Bool().Draw(t, "listed") || b == bs[0] {
+			kids = append(kids, gen.Ref{N: b})
+		}
+	}
+	add(gen.NodeSpec{Kind: gen.KIndex, Layers: rapid.Permutation(kids).Draw(t, "order")})
+	c := copyx.Case{Specs: specs, Root: n, SrcKind: "memory", DstKind: rapid.SampledFrom([]string{"memory", "oci"}).Draw(t, "dstKind"), API: "extcopygraph", Depth: 1, Callbacks: true}
+	c.Conc = rapid.SampledFrom([]int{1, 2, 3, 0}).Draw(t, "conc")
+	c.LatSeed = rapid.IntRange(1, 1<<20).Draw(t, "latSeed")
+	d := gen.Build(specs)
+	pre := map[int]bool{}
+	for _, b := range bs {
+		if rapid.Bool().Draw(t, "prePopulated") || b == bs[0] {
+			for id := range d.Reach(b, true) {
+				pre[id] = true
+			}
+		}
+	}
+	c.Pre = gen.SortedKeys(pre)
+	return c
+}
+
 func genCase(t *rapid.T) copyx.Case {
+	if rapid.IntRange(0, 11).Draw(t, "rootsOverlap") == 0 {
+		return rootsOverlap(t)
+	}
 	max := 14
 	if vt.Thorough() {
 		max = 28
 	}
-	c := copyx.GenBase(t, gen.DAGOpts{MaxNodes: max, Referrers: rapid.Bool().Draw(t, "referrers"), Wide: true, NoDupChild: true}, kinds, kinds)
+	c := copyx.GenBase(t, gen.DAGOpts{MaxNodes: max, Referrers: rapid.Bool().Draw(t, "referrers"), Wide: true, NoDupChild: true, AliasToOCI: true, FewBytes: rapid.IntRange(0, 3).Draw(t, "fewBytes") == 0}, kinds, kinds)
 	d := gen.Build(c.Specs)
 	c.API = rapid.SampledFrom([]string{"copygraph", "copy", "extcopygraph"}).Draw(t, "api")
 	c.Callbacks = true
 	c.Conc = rapid.SampledFrom([]int{1, 2, 3, 4, 6, 0}).Draw(t, "conc4")
 	c.LatSeed = rapid.IntRange(1, 1<<20).Draw(t, "latSeed4")
+	c.CustomFind = rapid.IntRange(0, 2).Draw(t, "customFind") == 0
 	if c.API != "extcopygraph" {
 		c.Pre = copyx.GenPre(t, d, d.Reach(c.Root, true), c.Root)
+	} else {
+		// a depth limit makes roots of nodes that other roots reach as successors;
+		// the destination may hold any link-closed part of the source beforehand
+		c.Depth = rapid.SampledFrom([]int{0, 0, 1, 2}).Draw(t, "depth4")
+		if rapid.Bool().Draw(t, "extPre") {
+			universe := map[int]bool{}
+			for _, id := range d.CanonIDs() {
+				if !d.Nodes[id].Spec.Absent {
+					universe[id] = true
+				}
+			}
+			c.Pre = copyx.GenPre(t, d, universe, c.Root)
+		}
 	}
 	if rapid.IntRange(0, 3).Draw(t, "cbError") == 0 {
 		ids := gen.SortedKeys(d.Reach(c.Root, true))
@@ -163,6 +218,9 @@ func runCase(c copyx.Case) (res vt.Result, fail *vt.Fail) {
 			if len(l.post) > 0 && len(l.pushEnd) > 0 && l.post[0].Seq < l.pushEnd[0].Seq {
 				return res, vt.Failf("C04/postcopy-before-push-finished", "node %d: PostCopy ran before its push returned", id)
 			}
+		}
+		if out.Err == nil && len(l.pre) == 1 && len(l.post) != 1 {
+			return res, vt.Failf("C04/precopy-without-postcopy", "node %d got PreCopy and the copy succeeded, but it got %d PostCopy calls (a node whose push the destination answers with already-exists is still a transferred node)", id, len(l.post))
 		}
 		if out.Err == nil && l.pushOK > 0 && len(l.post) != 1 {
 			return res, vt.Failf("C04/transferred-without-postcopy", "node %d was transferred but got %d PostCopy calls on a successful copy", id, len(l.post))
